@@ -126,6 +126,54 @@ theorem go_node : ∀ (xs fs : List K) (xa fa : K) (i : ℕ) (hi : i < xs.length
     rw [go_skip _ xa xb fa fb xs fs hge hne]
     exact go_node xs fs xb fb i hi' (by simpa using hl) hp'
 
+/-- walking the nodes from `xa ≤ x`: data lying on the straight line a·x + b is reproduced at every x up to the last node -/
+theorem go_affine (a b : K) : ∀ (xs : List K) (xa x : K), (xa :: xs).Pairwise (· < ·) → xa ≤ x →
+    x ≤ (xa :: xs).getLast (by simp) →
+    interp1.go (ordArith K) x xa (a * xa + b) xs (xs.map (fun t => a * t + b)) = a * x + b
+  | [], xa, x, _, h1, h2 => by
+    simp only [List.getLast_singleton] at h2
+    have : x = xa := le_antisymm h2 h1
+    subst this
+    simp [interp1.go]
+  | xb :: xs, xa, x, hp, h1, h2 => by
+    have hab : xa < xb := (List.pairwise_cons.1 hp).1 xb (by simp)
+    by_cases hx : x < xb
+    · rw [List.map_cons, go_linear x xa xb _ _ _ _ hx]
+      have hne : xb - xa ≠ 0 := sub_ne_zero.2 hab.ne'
+      field_simp
+      ring
+    · by_cases hne : xs = []
+      · subst hne
+        simp only [List.getLast_cons_cons, List.getLast_singleton] at h2
+        have : x = xb := le_antisymm h2 (not_lt.1 hx)
+        subst this
+        simp only [List.map_cons, List.map_nil]
+        exact go_last x xa x _ _ (lt_irrefl _)
+      · rw [List.map_cons, go_skip x xa xb _ _ _ _ hx (by simpa using hne)]
+        refine go_affine a b xs xb x (List.pairwise_cons.1 hp).2 (not_lt.1 hx) ?_
+        simpa [List.getLast_cons (List.cons_ne_nil xb xs)] using h2
+
+/-- **interp reproduces linear data exactly**: on strictly increasing nodes, values on the line a·x + b are returned as
+    a·x + b at every x between the first and the last node (not only at the nodes) -/
+theorem interp1_affine (a b : K) (xp : List K) (hne : xp ≠ []) (hp : xp.Pairwise (· < ·)) (x : K)
+    (h1 : xp.head hne ≤ x) (h2 : x ≤ xp.getLast hne) :
+    interp1 (ordArith K) xp (xp.map (fun t => a * t + b)) x = a * x + b := by
+  cases xp with
+  | nil => exact absurd rfl hne
+  | cons x0 xs =>
+    simp only [List.head_cons] at h1
+    unfold interp1
+    simp only [List.map_cons]
+    have hnlt : ¬ x < x0 := not_lt.2 h1
+    by_cases hxs : xs = []
+    · subst hxs
+      simp only [List.getLast_singleton] at h2
+      have : x = x0 := le_antisymm h2 h1
+      subst this
+      simp [ordArith, fieldArith]
+    · simp only [ordArith, fieldArith, hnlt, decide_false, Bool.false_eq_true, hxs, or_self, if_false]
+      exact go_affine a b xs x0 x hp h1 h2
+
 /-- interp on the object's own coordinates is the identity (every trace, via the bracket theorem) -/
 theorem interp_self (xp fp : List K) (hl : xp.length = fp.length) (hp : xp.Pairwise (· < ·)) :
     xp.map (interp1 (ordArith K) xp fp) = fp := by
